@@ -328,6 +328,15 @@ def r7(ctx):
             fn = g
             break
     if fn is None:
+        # the priority is given but nothing queues the message: that is the violation itself, not an unknown shape
+        for g in cands:
+            us = [c for c in g.all('CXXMemberCallExpr') if (g.nodes[c].get('callee') or '').endswith('::setUsedByCondition')]
+            if us:
+                ctx.touch(g)
+                for u in us:
+                    ctx.ob('C17.R7', g, u, False, 'true result / effect of %s.setUsedByCondition()' % g.key(g.nodes[u]['obj']),
+                           'leads to addPollMessage: False (no addPollMessage in %s)' % g.name.split('::', 1)[1])
+                return
         raise AnalysisBroken('C17.R7: setUsedByCondition / addPollMessage not found in SimpleCondition::resolve or a helper it calls')
     ctx.touch(fn)
     used = [c for c in fn.all('CXXMemberCallExpr') if (fn.nodes[c].get('callee') or '').endswith('::setUsedByCondition')]
